@@ -153,6 +153,7 @@ func init() {
 		Rules: []Rule{
 			Only(R19("cam"), `selector-is-an-emptiness`, `emptiness-of-filtered`),
 			Only(R58(), `^a/`),
+			R63(),
 			R53(),
 			R50(),
 			R18(),
